@@ -1,3 +1,2 @@
-import FluteModel.Drv.Util
--- stub: engine `path` not built yet
-def main : IO Unit := Flute.Drv.runDriver () (fun _ _ => ((), "bad-op"))
+import FluteModel.Drv.Path
+def main : IO Unit := Flute.Drv.runDriver () (fun _ args => ((), Flute.Drv.Path.step args))
